@@ -16,7 +16,7 @@ fn groups_for(prop: &str, ctx: &Ctx) -> Vec<Box<dyn Group>> {
         "C12" => vec![Box::new(c12::Run), Box::new(c12::Serve), Box::new(c12::Hosts)],
         "C18" => vec![Box::new(c18::Write), Box::new(c18::Replace), Box::new(c18::ReplaceSeq), Box::new(c18::ReadAll)],
         "C16" => vec![Box::new(c16::Ops), Box::new(c16::Present), Box::new(c16::Trace)],
-        "C15" => vec![Box::new(c15::Route), Box::new(c15::Isolation), Box::new(c15::Conn)],
+        "C15" => vec![Box::new(c15::Route), Box::new(c15::Isolation), Box::new(c15::Conn), Box::new(c20::HostsTls::new())],
         "C14" => vec![Box::new(c14::Rules), Box::new(c14::NonceRewrite::new()), Box::new(c14::CspHeader), Box::new(c14::Chain)],
         "C01" => vec![Box::new(c01::PathOk), Box::new(c01::San), Box::new(c01::Read::new(ctx))],
         "C07" => vec![Box::new(c07::Request1)],
@@ -27,7 +27,7 @@ fn groups_for(prop: &str, ctx: &Ctx) -> Vec<Box<dyn Group>> {
         "C13" => vec![Box::new(c13::Decisions)],
         "C17" => vec![Box::new(c17::Hist::new(ctx))],
         "C08" => vec![Box::new(c08::Framing)],
-        "C20" => vec![Box::new(c20::Pair::new()), Box::new(c20::MuxStreams::new())],
+        "C20" => vec![Box::new(c20::Pair::new()), Box::new(c20::MuxStreams::new()), Box::new(c20::HostsTls::new())],
         "C10" => vec![Box::new(c10::Nested), Box::new(c10::Ctl)],
         "C11" => vec![Box::new(c11::Chain)],
         "C02" => vec![Box::new(c02::Headers), Box::new(c02::Head), Box::new(c02::Stack), Box::new(c02::Crawl), Box::new(c09::Reply), Box::new(c15::Route),
